@@ -5,6 +5,8 @@ from vlib.common import Broken
 
 LEVEL = "model_checking"
 VARIANTS = ["fresh", "dirtybuf", "reset_after_fail", "reset_after_use", "pooled", "release"]
+# contiguous buffers of exact capacities: only with the small-payload programs (the boundary programs write 64 KiB payloads)
+CAP_VARIANTS = ["cap:%d" % n for n in range(1, 25)] + ["cap:255", "cap:256", "cap:257", "cap:258"]
 
 
 def run(ctx):
@@ -18,7 +20,7 @@ def run(ctx):
         r = wf.gen(ctx, cfg, name, timeout=2400)
         states += r.distinct
         trans += r.generated
-        summary, mism = wf.replay(ctx, r.outfile, VARIANTS, read=True)
+        summary, mism = wf.replay(ctx, r.outfile, VARIANTS + (CAP_VARIANTS if name in ("wf3", "wf4", "sc") else []), read=True)
         programs += summary["programs"]
         builds += summary["builds_compared"]
         samples += wf.sample_programs(r.outfile, 2)
@@ -37,11 +39,12 @@ def run(ctx):
     ctx.coverage = {
         "states": states, "transitions": trans, "traces_validated_against_impl": programs + golden,
         "samples": samples, "builds_compared_bytewise": builds, "golden_records": golden,
-        "variants": VARIANTS, "invariants": ["OpEqDen", "RoundTrip", "BigIffBoundary"], "exhaustive": True,
+        "variants": VARIANTS + CAP_VARIANTS, "invariants": ["OpEqDen", "RoundTrip", "BigIffBoundary"], "exhaustive": True,
         "explanation": "bytes of every Build of every generated program compared byte-for-byte with the specification "
                        "(two independent definitions inside the spec: stack machine and Encode function) under six writer "
                        "histories: fresh, dirty reused buffer, Reset after a failed program, Reset after a large program, "
-                       "pooled writer after pool pollution, auto-releasing writer; the same bytes are then read by the "
+                       "pooled writer after pool pollution, auto-releasing writer, contiguous buffers of every capacity 1..24 and 255..258 (each "
+                       "payload and each size/type trailer lands before, on and after a reallocation); the same bytes are then read by the "
                        "library's readers (reverse direction: spec-encoded bytes read by the library)",
     }
     ctx.assumptions = ["the specification was transcribed from the pinned code, it pins that layout (format.md is stale)",
